@@ -179,7 +179,7 @@ func TestVerifC01DubboThriftFidelity(t *testing.T) {
 	p.End(complete,
 		fmt.Sprintf("dirs %v x service-name length %v (65514 = largest the 16-bit header size allows) x method-name length %v x binary-field length %v x id %v x newid(quick: complement; thorough: all) x {buffer left alone, overwritten}; + {0,1,mid,max} of version and seqid; + zero/max frames; + 256 one-byte bodies",
 			c01Dirs, c01ServiceLens, vref.Lens16, vref.ContentLens, vref.IDs64),
-		"every case = one reference frame (vref.DubboThriftFrame; thrift message by apache/thrift) followed by a second small frame in one read buffer: Decode, consumption == frame length, GetHeader/GetData/SetData(same)/SetRequestId(new)/Encode as xStream.endStream does; bytes must equal the reference encoding with only the id replaced; scribble=true overwrites the whole read buffer after Decode")
+		"every case = one reference frame (vref.DubboThriftFrame; thrift message by apache/thrift) followed by a second small frame in one read buffer: Decode, consumption == frame length, GetHeader/GetData/SetData(same)/SetRequestId(new)/Encode as xStream.endStream does — three times on the same frame object with the same data buffer object (first try + two retries; ids new, old, new), after which the data buffer must still read the same; bytes must equal the reference encoding with only the id replaced; scribble=true overwrites the whole read buffer after Decode")
 }
 
 func TestVerifC01DubboThriftModify(t *testing.T) {
@@ -187,5 +187,5 @@ func TestVerifC01DubboThriftModify(t *testing.T) {
 	a := c01Adapter()
 	complete := vreport.Run(p, c01ModCases, func(p *vreport.Part, c vc01.Case) { vc01.CheckMod(p, a, c) })
 	p.End(complete, "dirs {request, response} x service {1,256 | thorough: all} x method {1,256 | all} x binary field {0,1,256,65536 | all} x 10 modifications",
-		"modification applied through HeaderMap.Set/Del and SetData; Encode must return an error or bytes that the reference parser AND a fresh Decode read back as exactly the modified headers/body with consistent lengths. Header view = service, method, seqId, messageType; body = the thrift message")
+		"modification applied through HeaderMap.Set/Del and SetData; then three upstream attempts (SetData(same buffer object), SetRequestId, Encode): the first Encode must return an error or, like each later one, bytes that the reference parser AND a fresh Decode read back as exactly the modified headers/body with consistent lengths. Header view = service, method, seqId, messageType; body = the thrift message")
 }
